@@ -1,17 +1,23 @@
 #!/bin/bash
-# usage: tools/mutant.sh <PROP> <A|B> [check-prop ...]
-# applies /tmp/seed/<PROP>/patch_<X>.diff to /repo, runs the test suite, the demo and the quick
-# checks named (default: the property itself), then restores /repo.
-P=$1; X=$2; shift 2
+# usage: tools/mutant.sh <SEED-ID e.g. C07A> [check-prop ...]
+# applies seeded/<id>/patch.diff to /repo's working tree, runs the test suite, the demo and the
+# quick checks named (default: the property the seed breaks), then restores /repo
+# (never commits, never stages).
+ID=$1; shift
+P=${ID:0:3}
 CHECKS=${@:-$P}
-SEED=${SEED_DIR:-/tmp/seed}/$P
+SEED=/verif/seeded/$ID
 cd /repo || exit 9
-git diff --quiet || { echo "repo dirty"; exit 9; }
-git apply $SEED/patch_$X.diff || { echo "PATCH-DOES-NOT-APPLY"; exit 8; }
-trap 'cd /repo && git checkout -- . && git clean -fdq' EXIT
+[ -z "$(git status --porcelain)" ] || { echo "repo dirty"; exit 9; }
+git apply $SEED/patch.diff 2>/dev/null || { echo "$ID PATCH-DOES-NOT-APPLY"; exit 8; }
+trap 'cd /repo && git reset -q --hard HEAD && git clean -fdq' EXIT
 T=$(/venv/bin/python -m pytest -q -p no:cacheprovider 2>&1 | tail -1)
-echo "tests: $T"
-( cd /repo && PYTHONPATH=/repo/src timeout 300 /venv/bin/python $SEED/demo_$X.py >/dev/null 2>&1 ); echo "demo exit (mutant): $?"
+( cd /repo && PYTHONPATH=/repo/src timeout 300 /venv/bin/python $SEED/demo.py >/dev/null 2>&1 ); D=$?
+R=""
 for C in $CHECKS; do
-  ( cd /verif && timeout 900 /venv/bin/python -m harness.run $C 2>&1 | grep -E "VIOLATION|KNOWN|Error|error" | head -3 ); echo "check $C exit: ${PIPESTATUS[0]}"
+  OUT=$(cd /verif && timeout 1200 /venv/bin/python -m harness.run $C 2>&1); RC=$?
+  V=$(echo "$OUT" | grep -c "^VIOLATION")
+  N=$(echo "$OUT" | grep -c "no-failing-input-found")
+  R="$R $C:rc=$RC,viol=$V,nofail=$N"
 done
+echo "$ID tests=[$T] demo=$D checks:$R"
